@@ -80,7 +80,7 @@ func storeAlphabet(o alphabetOpts) []storeOp {
 		ops = append(ops, opProto(0, 1, false), opProto(0, 1, true), opProto(1, 0, true))
 	}
 	if o.reads {
-		ops = append(ops, opReadIter(0), opReadEncode(0), opReadMisc(0))
+		ops = append(ops, opReadIter(0), opReadEncode(0), opReadMisc(0), opReadStop(0))
 	}
 	return ops
 }
